@@ -148,7 +148,10 @@ fn main() {
                 }
             }
         }
-    for mode in modes {
+        // enumerate every world first and run the small ones first: when the wall budget runs out it
+        // cuts into the largest worlds only (and each of them shares what is left)
+        let mut todo: Vec<(WorldCfg, Vec<Vec<Ev>>, usize, bool, bool)> = vec![];
+        for mode in modes {
             for rt in &rts {
                 for (kinds, paths, half) in &plans {
                     let cfg = WorldCfg { mode, rt: *rt, kinds: kinds.clone(), with_shutdown: c17, with_half: *half };
@@ -160,24 +163,31 @@ fn main() {
                         let (h, ns) = transition_cover(&cfg);
                         (h, ns, false)
                     };
-                    let t0 = ctx.elapsed();
-                    let (ex, capped) = explore(&ctx, &cfg, &hist, par, window(ctx.tier), budget, &samples);
-                    if capped || capped_enum {
-                        caps.push(format!("world {}: {} of {} histories executed (wall budget {budget}s / enumeration cap)", cfg.to_json(), ex.histories, hist.len()));
-                    }
-                    states += nstates;
-                    transitions += ex.transitions;
-                    histories += ex.histories;
-                    degraded += ex.degraded_sync;
-                    mach += ex.machinery_errors;
-                    distinct += ex.outcomes.len();
-                    worlds.push(json!({"world": cfg.to_json(), "exploration": if *paths {"every maximal path"} else {"every transition of the script graph once"},
-                        "script_states": nstates, "histories": hist.len(), "executed": ex.histories, "events_executed": ex.transitions,
-                        "distinct_observed_outcome_vectors": ex.outcomes.len(), "wall_s": ctx.elapsed() - t0}));
+                    todo.push((cfg, hist, nstates, capped_enum, *paths));
                 }
             }
         }
-    
+        todo.sort_by_key(|t| t.1.len());
+        let n_todo = todo.len();
+        for (ti, (cfg, hist, nstates, capped_enum, paths)) in todo.into_iter().enumerate() {
+            let t0 = ctx.elapsed();
+            // an equal share of the remaining budget for each remaining world
+            let world_budget = t0 + (budget - t0).max(0.0) / (n_todo - ti) as f64;
+            let (ex, capped) = explore(&ctx, &cfg, &hist, par, window(ctx.tier), world_budget, &samples);
+            if capped || capped_enum {
+                caps.push(format!("world {}: {} of {} histories executed (wall budget {budget}s shared by the worlds / enumeration cap)", cfg.to_json(), ex.histories, hist.len()));
+            }
+            states += nstates;
+            transitions += ex.transitions;
+            histories += ex.histories;
+            degraded += ex.degraded_sync;
+            mach += ex.machinery_errors;
+            distinct += ex.outcomes.len();
+            worlds.push(json!({"world": cfg.to_json(), "exploration": if paths {"every maximal path"} else {"every transition of the script graph once"},
+                "script_states": nstates, "histories": hist.len(), "executed": ex.histories, "events_executed": ex.transitions,
+                "distinct_observed_outcome_vectors": ex.outcomes.len(), "wall_s": ctx.elapsed() - t0}));
+        }
+
         let mut n = 0u64;
         let mut ev = 0u64;
         for h in hs {
